@@ -86,7 +86,14 @@ pub fn render(c: &Case) -> Option<Rendered> {
         if r.yes && !r.exact { None } else { Some(r.yes) }
     }).collect();
     let (t, s) = (tygen::render(&c.t), tygen::render(&s_ty));
-    let mut lines = vec![format!("'t = {t}"), format!("'s = {s}")];
+    let mut lines = Vec::new();
+    if c.generic % 3 == 0 {
+        // types nothing refers to, registered before 't and 's: tree-shaking drops them and has to
+        // renumber every type id that follows
+        lines.push("'unused9 = Uu9['int, Vv9['bin, (q: Xx9)]] | Ww9[(p: 'int)]".to_string());
+    }
+    lines.push(format!("'t = {t}"));
+    lines.push(format!("'s = {s}"));
     let form = c.form % 4;
     match form {
         0 => lines.push("f = #'t { | =('s)y => Y | N }".into()),
@@ -285,6 +292,9 @@ pub fn run(ctx: &Ctx) -> i32 {
                     if case.t.has_partial() || case.s().has_partial() {
                         stats.class("partial-type");
                     }
+                    if case.generic % 3 == 0 {
+                        stats.class("unused-types-registered-first");
+                    }
                     if r.generic_built.iter().any(|b| *b) {
                         stats.class("value-assembled-in-a-generic-function");
                     }
@@ -349,13 +359,13 @@ pub fn run(ctx: &Ctx) -> i32 {
         ctx,
         stats: &stats,
         violations,
-        rule: "a generated scrutinee type 't (unions, named/unnamed tuples with labels, partials, recursive types), a test type 's = 't after 1-3 mutations or an independent type, up to 8 first-order values enumerated from 't and written as literals (in a quarter of the cases tuple values are instead assembled inside a generic function from one of their fields), and a test form: `=('s)y`, `='s`, a typed tuple pattern `=[('s)y, _]`, or a process that receives `! [#'s, #Fin9]` after the values were mailed to it in order; the verdict per value is compared with the model (inhabits(v, 's) over the same type trees): an accepted value must be a member, a member written as a literal must be accepted, the typed receive must take the earliest member; every program runs as compiled, tree-shaken, after a JSON round trip and merged into an environment behind three programs that register tuples of the same names in other shapes. evaluations = program runs; non-trivial = the compiled code contains an IsType and both verdicts occur; distinct by program text".into(),
+        rule: "a generated scrutinee type 't (unions, named/unnamed tuples with labels, partials, recursive types), a test type 's = 't after 1-3 mutations or an independent type, up to 8 first-order values enumerated from 't and written as literals (in a quarter of the cases tuple values are instead assembled inside a generic function from one of their fields), and a test form: `=('s)y`, `='s`, a typed tuple pattern `=[('s)y, _]`, or a process that receives `! [#'s, #Fin9]` after the values were mailed to it in order; the verdict per value is compared with the model (inhabits(v, 's) over the same type trees): an accepted value must be a member, a member written as a literal must be accepted, the typed receive must take the earliest member; a third of the programs start with an alias nothing refers to (so that tree-shaking renumbers every later type id); every program runs as compiled, tree-shaken, after a JSON round trip and merged into an environment behind three programs that register tuples of the same names in other shapes. evaluations = program runs; non-trivial = the compiled code contains an IsType and both verdicts occur; distinct by program text".into(),
         assumptions: vec![
             "values are literals, so their compile-time type is contained in 's exactly when the value is a member; widening routes are covered by C13's paths".into(),
             "programs the compiler rejects (literal not accepted for 't, pattern statically impossible) are discarded".into(),
             "recorded finding: a tuple assembled inside a generic function carries the generic definition's tuple id, whose type-variable fields the precomputed run-time table treats as matching anything; acceptances of such non-members are attributed to it (and only those), members must still be accepted".into(),
         ],
-        required_classes: vec!["verdict:accepted", "verdict:rejected", "form:=('s)y", "form:='s", "form:typed-tuple-pattern", "form:typed-receive", "recursive-scrutinee-type", "partial-type", "value-assembled-in-a-generic-function"],
+        required_classes: vec!["verdict:accepted", "verdict:rejected", "form:=('s)y", "form:='s", "form:typed-tuple-pattern", "form:typed-receive", "recursive-scrutinee-type", "partial-type", "value-assembled-in-a-generic-function", "unused-types-registered-first"],
         started,
         technique: "proptest-generated (scrutinee type, test type, values, form) x packaging variants; oracle = inhabitation model over the generated type trees",
     })
@@ -399,8 +409,10 @@ pub fn replay(payload: &serde_json::Value) -> Result<(), String> {
         generic_built: payload["generic_built"].as_array().map(|a| a.iter().map(|x| x.as_bool().unwrap_or(false)).collect()).unwrap_or_default(),
     };
     if r.values.is_empty() {
-        // a breadcrumb (no structured values): only look for crashes
-        let _ = qrun::eval_source(&r.source, &Modules::new(), &reg, 1000, 10_000_000);
+        // a breadcrumb (no structured values): only look for crashes, in every packaging variant
+        if let Ok(c) = qrun::compile(&r.source, &Modules::new(), &reg) {
+            let _ = pack::run_all(&c, &before_pool(&reg), &reg);
+        }
         return Ok(());
     }
     match check_rendered(&r, &reg) {
